@@ -50,6 +50,7 @@ func (p params) name() string {
 type node struct {
 	i       int
 	address string
+	nodeID  string
 	w       *vsys.World
 	running bool
 	gen     int // restarts
@@ -106,7 +107,7 @@ func scenario(p params, bounds []int) *vexp.Scenario {
 				if nodes[i] != nil {
 					gen = nodes[i].gen + 1
 				}
-				nodes[i] = &node{i: i, address: address, w: w, running: true, gen: gen}
+				nodes[i] = &node{i: i, address: address, nodeID: nodeID, w: w, running: true, gen: gen}
 				w.Start()
 			}
 			// the dialing node is the one whose thread runs: track it through the HandleEnvelop tap
@@ -195,20 +196,27 @@ func scenario(p params, bounds []int) *vexp.Scenario {
 			advanceTo(endAt)
 			// ---------------- oracle at the horizon ----------------
 			type viewSum struct {
-				members string
-				leader  string
+				members string // what the view says about the running nodes
+				leader  string // leader among them
 				self    string
 			}
 			var running []int
 			var wantMembers []string
+			live := map[string]bool{} // "id@address" of the running nodes
 			for _, nd := range nodes {
 				if nd.running {
 					running = append(running, nd.i)
-					wantMembers = append(wantMembers, nd.address)
+					wantMembers = append(wantMembers, nd.nodeID+"@"+nd.address)
+					live[nd.nodeID+"@"+nd.address] = true
 				}
 			}
 			sort.Strings(wantMembers)
+			// A view may still hold entries of nodes that no longer run (a crashed node, a previous incarnation).
+			// That is judged once, by dead-member-removed. The agreement rules are then judged on what the views say
+			// about the RUNNING nodes (membership, and the leader computed among them), so that they do not merely
+			// repeat that verdict and stay sensitive to everything else.
 			var sums []viewSum
+			anyDead := false
 			for _, i := range running {
 				nd := nodes[i]
 				c := actor.VerifCtxOf(nd.w.Sys, "/@cluster")
@@ -221,38 +229,50 @@ func scenario(p params, bounds []int) *vexp.Scenario {
 					x.Fail("harness", "unexpected cluster actor type")
 					continue
 				}
-				view, _ := cluster.VerifNodeView(na)
-				var ms []string
-				for _, m := range view.Members {
-					ms = append(ms, fmt.Sprintf("%s#g%d.c%d", m.Address, m.Generation, m.LogicalClock))
+				real, _ := cluster.VerifNodeView(na)
+				view := real.Snapshot()
+				var ms, dead []string
+				for id, m := range view.Members {
+					key := m.ID + "@" + m.Address
+					if !live[key] {
+						dead = append(dead, key)
+						delete(view.Members, id)
+						continue
+					}
+					ms = append(ms, fmt.Sprintf("%s#g%d.c%d", key, m.Generation, m.LogicalClock))
 				}
 				sort.Strings(ms)
+				sort.Strings(dead)
+				if len(dead) > 0 {
+					anyDead = true
+					x.Fail("dead-member-removed", "at the horizon node %s still lists %v, which are not running (running: %v)", nd.address, dead, wantMembers)
+				}
 				sums = append(sums, viewSum{strings.Join(ms, " "), cluster.ComputeLeaderAddr(view), nd.address})
 			}
+			_ = anyDead
 			if len(sums) > 0 {
 				leaders := 0
-				for k, s := range sums {
+				for _, s := range sums {
 					if s.members != sums[0].members {
-						x.Fail("same-membership", "at the horizon node %s sees [%s] but node %s sees [%s]", s.self, s.members, sums[0].self, sums[0].members)
+						x.Fail("same-membership", "at the horizon node %s sees [%s] but node %s sees [%s] (entries of nodes that are not running left out)", s.self, s.members, sums[0].self, sums[0].members)
 					}
 					if s.leader != sums[0].leader {
-						x.Fail("same-leader", "at the horizon node %s computes leader %q but node %s computes %q", s.self, s.leader, sums[0].self, sums[0].leader)
+						x.Fail("same-leader", "at the horizon node %s computes leader %q but node %s computes %q (among the running nodes)", s.self, s.leader, sums[0].self, sums[0].leader)
 					}
 					if s.leader == s.self {
 						leaders++
 					}
-					_ = k
-					var addrs []string
+					var keys []string
 					for _, m := range strings.Fields(s.members) {
-						addrs = append(addrs, m[:strings.IndexByte(m, '#')])
+						keys = append(keys, m[:strings.IndexByte(m, '#')])
 					}
-					sort.Strings(addrs)
-					if strings.Join(addrs, " ") != strings.Join(wantMembers, " ") {
-						x.Fail("exactly-the-live-nodes", "at the horizon node %s sees members %v, the running nodes are %v", s.self, addrs, wantMembers)
+					sort.Strings(keys)
+					if strings.Join(keys, " ") != strings.Join(wantMembers, " ") {
+						x.Fail("exactly-the-live-nodes", "at the horizon node %s lists %v of the running nodes %v", s.self, keys, wantMembers)
 					}
 				}
 				if leaders != 1 {
-					x.Fail("exactly-one-leader", "at the horizon %d nodes consider themselves leader (views: %v)", leaders, sums)
+					x.Fail("exactly-one-leader", "at the horizon %d of the running nodes consider themselves leader (views: %v)", leaders, sums)
 				}
 			}
 			// stability: nothing announced in the last third of the healing phase
